@@ -198,7 +198,10 @@ class H2EventSource:
         ctx = interp.ctx
         names = [c.__name__ for c in H2_EVENT_CLASSES]
         k = ctx.choose(len(names), "h2event", names)
-        cls = H2_EVENT_CLASSES[k]
+        return self.make(interp, H2_EVENT_CLASSES[k])
+
+    def make(self, interp, cls):
+        ctx = interp.ctx
         ev = SObj(cls, {}, tag="ev")
         sid = ctx.fresh("ev.stream_id", I)
         ctx.inputs[str(sid)] = sid
@@ -266,7 +269,8 @@ def request_headers(interp, name):
     if ctx.choose(2, ":protocol", ["absent", "present"]) == 1:
         items.append((b":protocol", SymStr(z3.String(ctx.fresh_name(f"{name}.:protocol")), "bytes")))
     rest = z3.Const(ctx.fresh_name(f"{name}.headers.rest"), PairSeq)
-    ctx.seq_facts.append((rest, lambda el: z3.Not(z3.PrefixOf(z3.StringVal(":"), Pair.fst(el)))))
+    # h2 rejects empty header names and pseudo-headers after regular ones
+    ctx.seq_facts.append((rest, lambda el: z3.And(z3.Length(Pair.fst(el)) >= 1, z3.Not(z3.PrefixOf(z3.StringVal(":"), Pair.fst(el))))))
     return PList(items, sym=SymSeq(rest, "pair"))
 
 
@@ -280,8 +284,28 @@ class ChangedSettingsModel:
 
 @register(name="pyvc:H2Events")
 class H2EventsModel:
+    def symbolic(self, interp, name):
+        return SObj("pyvc:H2Events", {"conn": None}, tag=name)
+
     def iter_source(self, interp, obj, fr):
-        return H2EventSource(obj.fields["conn"])
+        conn = obj.fields["conn"]
+        if conn is None:
+            conn = interp.unit_self.fields["connection"]
+        return H2EventSource(conn)
+
+
+def _sym_event(cls_):
+    class _M:
+        def symbolic(self, interp, name):
+            conn = interp.unit_self.fields["connection"] if interp.unit_self is not None else None
+            src = H2EventSource(conn)
+            return src.make(interp, cls_)
+
+    return _M
+
+
+for _c in H2_EVENT_CLASSES:
+    MODEL_CLASSES[f"h2.events:{_c.__name__}"] = _sym_event(_c)()
 
 
 @register(real=[h2.settings.Settings, h2.config.H2Configuration])
